@@ -5,6 +5,8 @@ import (
 	"fmt"
 	"sync"
 
+	"github.com/yuin/goldmark/parser"
+
 	"verif/internal/core"
 )
 
@@ -116,7 +118,75 @@ func lastBlockKind(cv *core.Conv, d []byte) string {
 	return out
 }
 
+// runC08SharedContext: D and its quoted form converted one after the other with ONE parser.Context handed in through
+// parser.WithContext. Link reference definitions legitimately survive in a reused context, but D and "> "D define the
+// same labels, so the wrapped rendering must still come out.
+func runC08SharedContext(r *core.Run) {
+	var docs [][]byte
+	for _, d := range TableDocs() {
+		docs = append(docs, d)
+	}
+	for _, e := range Seeds(r) {
+		docs = append(docs, []byte(e.Markdown))
+	}
+	docs = append(docs, c12StructuredDocs(r.Quick())...)
+	for _, cn := range []string{"gfm", "gfm+unsafe+xhtml", "core"} {
+		cfg := core.MustCfg(cn)
+		s := r.Sub("shared-context/"+cn, fmt.Sprintf("%d documents (small tables with every pair of cell contents, the spec examples and the repository's test-case sources, the structured corpus): D and then '> '-prefixed D converted on one instance with one parser.Context passed through parser.WithContext, under %s: the second output is the first wrapped in a block quote", len(docs), cn))
+		s.Planned = int64(len(docs))
+		s.Bound = fmt.Sprintf("%d documents", len(docs))
+		complete := core.ForEachIndex(len(docs), core.Workers(), func(w int) func(int) {
+			md := cfg.New()
+			var b1, b2 bytes.Buffer
+			var q []byte
+			return func(i int) {
+				d := docs[i]
+				if blank(d) || bytes.IndexByte(d, '\t') >= 0 || bytes.IndexByte(d, '\r') >= 0 {
+					return
+				}
+				q = quotePrefix(q, d)
+				pc := parser.NewContext()
+				b1.Reset()
+				b2.Reset()
+				var pan any
+				var e1, e2 error
+				func() {
+					defer func() { pan = recover() }()
+					e1 = md.Convert(d, &b1, parser.WithContext(pc))
+					e2 = md.Convert(q, &b2, parser.WithContext(pc))
+				}()
+				s.Evals.Add(2)
+				hist := []string{"pc := parser.NewContext()", "Convert(" + core.Q(d) + ", WithContext(pc))", "Convert(" + core.Q(q) + ", WithContext(pc))"}
+				if pan != nil || e1 != nil || e2 != nil {
+					s.Violate("convert-failed:shared-context", cfg.String(), d, hist, fmt.Sprint("panic=", pan, " err=", e1, e2), "", "")
+					md = cfg.New()
+					return
+				}
+				want := string(bqOpen) + b1.String() + string(bqClose)
+				if b2.String() != want {
+					sig := "quote-wrap-differs:shared-context"
+					if c08BracketSpanAtLimit(d, 1) {
+						sig = "quote-wrap-differs:pending-bracket-span-at-998-limit"
+					}
+					s.Violate(sig, cfg.String(), d, hist, "with one parser.Context for both conversions, the '> '-prefixed document does not wrap the same content", want, b2.String())
+				}
+				s.Distinct(core.Hash(b1.Bytes()))
+				if i%(len(docs)/5+1) == 0 {
+					s.AddSample(core.Q(d))
+				}
+			}
+		}, r.Expired)
+		if !complete {
+			s.Incomplete("internal deadline reached")
+		}
+		s.States.Store(s.Evals.Load())
+		s.Transitions.Store(s.Evals.Load())
+		s.Done()
+	}
+}
+
 func runC08(r *core.Run) {
+	runC08SharedContext(r)
 	depth := 3
 	type job struct {
 		name string
